@@ -105,6 +105,8 @@ Fixpoint pfold_ret {A R} (f : Z -> A -> R + A) (l : list Z) (a : A) : R + A :=
   | i :: t => match f i a with inl r => inl r | inr a' => pfold_ret f t a' end
   end.
 
+Definition unsome {A} (d : A) (o : option A) : A := match o with Some a => a | None => d end.
+
 (* ---------- lists of Z with Z indices ---------- *)
 Definition getl (l : list Z) (i : Z) : Z := nth (Z.to_nat i) l 0.
 Fixpoint upd {A} (l : list A) (n : nat) (v : A) : list A :=
